@@ -30,7 +30,7 @@ theorem kept_sector_preserved (b s : Nat) (h40 : b ≠ 40) (h41 : b ≠ 41) (hs 
       exact ⟨_, inv'.hbat, hnf⟩
   refine ⟨htable, ?_⟩
   -- the sector after the call
-  rw [writeFile_unfold sd bat content name ext kind flag inv.hbat]
+  rw [writeFile_unfold sd bat content name ext kind flag inv.hbat inv.not_free40.1 inv.not_free40.2]
   by_cases hfit : (chosen bat (reqBlocks content.length)).length < reqBlocks content.length
   · rw [if_pos hfit]; exact hv
   · rw [if_neg hfit]
